@@ -126,6 +126,13 @@ def oracle(ctx, kind, p):
         if not _trees.wellformed(node, rm):
             continue
         meta = rand_meta(rng)
+        if not gs and p['i'] % 6 == 1:
+            # the first lines of the stream are comments that *talk about* encodings (they are
+            # metadata, not instructions to whoever opens the file), and the text is not ASCII
+            meta = dict([rng.choice([('coding:', 'latin-1'), ('note', '-*- coding: iso-8859-15 -*-'),
+                                     ('source', 'vim: set fileencoding=cp1252 :')]), ('snt', 'caf\u00e9 \u00e5')],
+                        **{k_: v_ for k_, v_ in meta.items() if k_ not in ('coding:', 'note', 'source', 'snt')})
+            ctx.count('encoding_talk_in_first_lines')
         if any(c in v for v in meta.values() for c in EXOTIC):
             exotic = True
         ok, g = ctx.call(layout.interpret, Tree(node, metadata=meta), model, clause='interpret')
@@ -217,6 +224,10 @@ def oracle(ctx, kind, p):
                         ('file', lambda: penman.load(path, model=model, encoding=enc)),
                         ('filehandle', via_handle),
                     ]
+                    import locale as _locale
+                    if enc == 'utf-8' and _locale.getpreferredencoding(False).lower().replace('-', '') == 'utf8':
+                        # the encoding argument left at its default (the platform's, UTF-8 here)
+                        containers.append(('file(default encoding)', lambda: penman.load(path, model=model)))
                     if re.search(r'\r(?!\n)', text) is None:     # a plain StringIO does not end lines at a lone CR (O6)
                         containers.append(('StringIO', lambda: penman.load(io.StringIO(text), model=model)))
                     for cname, f in containers:
